@@ -178,3 +178,14 @@ Lemma spec_handle_refuted : exists t d,
 Proof.
   exists t_string_key, d_ab. repeat split; try (vm_compute; reflexivity). vm_compute. discriminate.
 Qed.
+
+(* without the (always true) uniqueness hypothesis *)
+Theorem key_max_le16_sound' : forall t d b,
+  key_type_ok t = true -> key_ok t d = true ->
+  key_max_le16 t = true -> key_bytes t d = Ok b -> len b <= 16.
+Proof. intros. eapply key_max_le16_sound; eauto using key_ids_unique_always. Qed.
+
+Theorem spec_handle_outside_class' : forall t d,
+  key_type_ok t = true -> key_ok t d = true ->
+  short_of_long t d = false -> instance_handle t d = spec_handle t d.
+Proof. intros. apply spec_handle_outside_class; auto using key_ids_unique_always. Qed.
